@@ -27,14 +27,13 @@ pub open spec fn margins_safe(ts: TerminalState) -> bool {
     &&& (ts.margins_left_right matches Some(m) ==> 0 <= m.0 <= m.1 < 132)
 }
 pub open spec fn tabs_safe(ts: TerminalState) -> bool {
-    forall|i: int| 0 <= i < ts.tab_stops.len() ==> 0 <= #[trigger] ts.tab_stops[i] < 0x10_0000
+    forall|i: int| 0 <= i < ts.tab_stops.len() ==> 0 <= #[trigger] ts.tab_stops[i] <= 0x10_0000
 }
 pub open spec fn ts_ok(ts: TerminalState) -> bool {
     &&& 1 <= ts.size.width <= 132
     &&& 1 <= ts.size.height <= 60
     &&& margins_safe(ts)
     &&& tabs_safe(ts)
-    &&& ts.tab_stops.len() < 0x10_0000
     // reachable-state fact: no emulation ever selects OriginMode::WithinMargins (the DECOM arm is commented out)
     &&& ts.origin_mode is UpperLeftCorner
 }
@@ -45,10 +44,11 @@ pub open spec fn buf_ok(b: Buffer, k: int) -> bool {
     &&& ts_ok(b.terminal_state)
     &&& 0 <= b.size.width <= k
     &&& 0 <= b.size.height <= k
+    &&& b.terminal_state.tab_stops.len() <= k
     &&& k <= CAP()
 }
 pub open spec fn caret_ok(c: Caret, k: int) -> bool {
-    0 <= c.pos.x <= k && 0 <= c.pos.y <= k
+    0 <= c.pos.x <= 0x10_0000 && c.pos.x <= k && 0 <= c.pos.y <= k
 }
 pub open spec fn first_visible(b: Buffer) -> int {
     if b.is_terminal_buffer {
@@ -190,6 +190,10 @@ pub open spec fn buf_lines_only(a: Buffer, b: Buffer, li: int) -> bool {
 // k is a growth budget: every size and the cursor are at most k. One character grows k by at most 2.
 pub open spec fn term_inv(b: Buffer, c: Caret, k: int) -> bool {
     buf_ok(b, k) && caret_ok(c, k) && k >= 0x10_0001 && b.is_terminal_buffer
+}
+// the part of the invariant Caret::lf needs: the column is irrelevant (lf resets it)
+pub open spec fn term_inv_y(b: Buffer, c: Caret, k: int) -> bool {
+    buf_ok(b, k) && 0 <= c.pos.y <= k && k >= 0x10_0001 && b.is_terminal_buffer
 }
 pub open spec fn term_step(b0: Buffer, c0: Caret, b1: Buffer, c1: Caret, g: int) -> bool {
     &&& b1.is_terminal_buffer == b0.is_terminal_buffer
